@@ -223,7 +223,12 @@ def get_variables_with_sort(var_sort):
     Requires that global information has been populated via
     ``collect_information``.
     """
-    return [v for v in __sort_lookup if __sort_lookup[v] == var_sort]
+    # only first-order constants: a function with arguments is not a term of
+    # this sort, and let/quantifier-bound symbols are not in scope everywhere
+    return [
+        v for v in __sort_lookup
+        if __sort_lookup[v] == var_sort and v in __constants
+    ]
 
 
 def introduce_variables(exprs, vars):
